@@ -275,7 +275,10 @@ theorem skeleton_matches_model :
     Gen.C09.swcOneSection ≠ 0 ∧ Gen.C09.swcCountsExiting ≠ 0 ∧ Gen.C09.swcFirstBroadcastUnderL ≠ 0 ∧
     Gen.C09.killTakenUnderLock ≠ 0 ∧ Gen.C09.exitingCountedUnderLock ≠ 0 ∧
     Gen.C09.exitDecidedWithKillInOneSection ≠ 0 ∧ Gen.C09.workerMapsUnderLock ≠ 0 ∧
-    Gen.C09.lockOrderAcyclic ≠ 0 := by decide
+    Gen.C09.lockOrderAcyclic ≠ 0 ∧
+    -- JoinAll re-asserts its request inside its loop (`joinKill` may recur: joinall_bound applies after the
+    -- last overlapping SetWorkerCount); SetWorkerCount's polling loops look at workerKill
+    Gen.C09.joinAllKeepsRequestUp ≠ 0 ∧ Gen.C09.swcLoopsYieldToJoinAll ≠ 0 := by decide
 
 /-- the reviewer's interleaving of JoinAll with two resizes: the worker that found the queue empty on the
     exit-when-drained path re-checks workerKill and stays — two workers, as requested -/
